@@ -123,7 +123,7 @@ class C10(Prop):
             "from the canonical spelling, or is a near-miss accept.")
     assumptions = ("reply generator only produces RFC 7230-valid header syntax, whose meaning (httpref.interpret_reply) is "
                    "computed from the generator's structure, not by parsing",)
-    examples = {"quick": 4000, "thorough": 80000}
+    examples = {"quick": 4000, "thorough": 160000}
 
     def strategy(self, tier):
         token = st.from_regex(r"[a-z][a-z0-9.\-]{0,8}", fullmatch=True)
